@@ -48,7 +48,7 @@ def op_term(o):
         return "OStop RNone" if o[1] is None else f"OStop (RUser {o[1]})"
     if k == "adv":
         return f"OAdv {o[1]}"
-    return {"kill": "OKill", "drain": "ODrain", "settle": "OSettle", "probe": "OProbe", "open": "OOpen"}[k]
+    return {"kill": "OKill", "drain": "ODrain", "settle": "OSettle", "probe": "OProbe", "open": "OOpen", "popen": "OPOpen"}[k]
 
 
 def ops_term(ops):
@@ -189,6 +189,56 @@ def gen_parked_systematic():
     return cases
 
 
+def gen_gated_case(rng):
+    """target whose post_stop blocks on a gate: after a stop / exit_after / drain it stays in
+    Stopping (ports still open) until `popen` or a kill; timers of all kinds due before / inside /
+    after that window"""
+    ops = gen_random_case(rng)
+    if not any(o[0] in ("stop", "drain") or (o[0] == "mk" and o[1] == "e") for o in ops):
+        # make sure the window opens: stop somewhere in the first half
+        pos = rng.randrange(0, max(1, len(ops) // 2) + 1)
+        ops = ops[:pos] + [rng.choice([("stop", None), ("stop", 5), ("drain",)])] + ops[pos:]
+    if rng.random() < 0.8:
+        pos = rng.randrange(0, len(ops) + 1)
+        ops = ops[:pos] + [("popen",)] + ops[pos:]
+    ops.append(("probe",))
+    return ops
+
+
+def gen_gated_systematic():
+    """one timer of each kind x due before / inside / after the Stopping window x the window
+    opened by stop / drain / exit_after x closed by popen / kill / never"""
+    cases = []
+    W0, W1 = 2 * MS, 6 * MS          # the target leaves the loop at W0, post_stop is released at W1
+    for kind in "aiek":
+        for due in (MS, 4 * MS, 8 * MS, W0, W1):
+            for opener in ("stop", "drain", "exit"):
+                for closer in ("popen", "kill", "never"):
+                    ops = [("mk", kind, due if kind != "i" else [MS, 4 * MS, 8 * MS, 2 * MS, 3 * MS][[MS, 4 * MS, 8 * MS, W0, W1].index(due)])]
+                    if opener == "exit":
+                        ops.append(("mk", "e", W0))
+                    t = 0
+                    for at, what in sorted([(W0, "open"), (W1, "close"), (MS, "p"), (4 * MS, "p"), (8 * MS, "p"), (10 * MS, "p")],
+                                           key=lambda x: x[0]):
+                        if at > t:
+                            ops.append(("adv", at - t))
+                            t = at
+                        if what == "open":
+                            if opener == "stop":
+                                ops.append(("stop", 4))
+                            elif opener == "drain":
+                                ops.append(("drain",))
+                        elif what == "close":
+                            if closer == "popen":
+                                ops.append(("popen",))
+                            elif closer == "kill":
+                                ops.append(("kill",))
+                        else:
+                            ops.append(("probe",))
+                    cases.append(ops)
+    return cases
+
+
 def gen_exhaustive():
     """one timer x duration x one action at every position relative to the expiry"""
     cases = []
@@ -291,7 +341,8 @@ def load_corpus():
     if os.path.isdir(d):
         for f in sorted(os.listdir(d)):
             if f.endswith(".json"):
-                out.append([tuple(o) for o in json.load(open(os.path.join(d, f)))["ops"]])
+                j = json.load(open(os.path.join(d, f)))
+                out.append((j.get("flags", ""), [tuple(o) for o in j["ops"]]))
     return out
 
 
@@ -333,18 +384,26 @@ def run(chk):
                           failing_input=False)
             break
 
-    cases = [(False, c) for c in load_corpus()]
+    # a case is (flags, ops); flags: "S" parked in pre_start, "G" gated post_stop
+    cases = load_corpus()
     n_corpus = len(cases)
-    cases += [(False, c) for c in gen_exhaustive()]
-    cases += [(True, c) for c in gen_parked_systematic()]
+    cases += [("", c) for c in gen_exhaustive()]
+    cases += [("S", c) for c in gen_parked_systematic()]
+    cases += [("G", c) for c in gen_gated_systematic()]
     n_exh = len(cases) - n_corpus
     n_rand = (1500 if quick else 20000) * factor
     for k in range(n_rand):
         if k % 5 == 4:
-            cases.append((True, gen_parked_case(chk.rng)))
+            cases.append(("S", gen_parked_case(chk.rng)))
+        elif k % 5 == 3:
+            cases.append(("G", gen_gated_case(chk.rng)))
+        elif k % 25 == 2:
+            cases.append(("SG", gen_parked_case(chk.rng)))
         else:
-            cases.append((False, gen_random_case(chk.rng)))
-    pks = [pk for pk, _ in cases]
+            cases.append(("", gen_random_case(chk.rng)))
+    flags = [f for f, _ in cases]
+    pks = ["S" in f for f in flags]
+    gts = ["G" in f for f in flags]
 
     def settle_after_open(ops):
         # the gate's effect (Starting -> Running) takes place when the target's task runs: keep
@@ -356,15 +415,16 @@ def run(chk):
                 out.append(("settle",))
         return out
     cases = [settle_after_open(c) for _, c in cases]
-    PK = lambda i: "true" if pks[i] else "false"
+    PK = lambda i: ("true" if pks[i] else "false") + " " + ("true" if gts[i] else "false")
+    PK1 = lambda i: "true" if pks[i] else "false"
 
-    lines = [("S|" if pks[i] else "") + " ; ".join(op_line(o) for o in ops) for i, ops in enumerate(cases)]
+    lines = [((flags[i] + "|") if flags[i] else "") + " ; ".join(op_line(o) for o in ops) for i, ops in enumerate(cases)]
     impl = run_harness(build, "eng_timer", lines, shards=min(NCPU, 8))
     impl_t = [parse_term(x) for x in impl]
     exprs = [f"observe {PK(i)} {ops_term(ops)}" for i, ops in enumerate(cases)]
-    exprs += [f"check_C12 {PK(i)} {ops_term(ops)} ({impl[i]})" for i, ops in enumerate(cases)]
+    exprs += [f"check_C12 {PK1(i)} {ops_term(ops)} ({impl[i]})" for i, ops in enumerate(cases)]
     # the oracle must accept the model's own observation (C12_oracle_sound is OPEN: checked here per scenario)
-    exprs += [f"check_C12 {PK(i)} {ops_term(ops)} (observe {PK(i)} {ops_term(ops)})" for i, ops in enumerate(cases)]
+    exprs += [f"check_C12 {PK1(i)} {ops_term(ops)} (observe {PK(i)} {ops_term(ops)})" for i, ops in enumerate(cases)]
     model = coq_eval("C12", IMPORTS, exprs)
     n = len(cases)
     model_t = [parse_term(x) for x in model[:n]]
@@ -381,7 +441,7 @@ def run(chk):
     for i, ops in enumerate(cases):
         chk.coverage["evaluations"] += 1
         mv, iv = canon_obs(model_t[i]), canon_obs(impl_t[i])
-        chk.count("target." + ("starting(parked in pre_start)" if pks[i] else "running"))
+        chk.count("target." + ("starting(parked in pre_start)" if pks[i] else "running") + ("+gated post_stop" if gts[i] else ""))
         for o in ops:
             chk.count("op." + (o[0] + "." + o[1] if o[0] == "mk" else o[0]))
         if isinstance(iv, tuple) and iv[0] == "mkObs":
